@@ -254,6 +254,14 @@ def _drive(sc, make_sampler, objective_factory, ev):
 
     if sc.get("zombie"):
         study.ask()        # a worker that died right after ask(): a RUNNING trial without any parameter, for ever
+    if sc.get("foreign_grid"):
+        # an earlier search in the SAME study used another grid: the same value lists under other parameter names (a two-stage
+        # search); its trials carry grid ids of their own, which say nothing about the grid under test
+        fps = [dict(p, n="zz_" + p["n"]) for p in sc["params"]]
+        fstudy = optuna.load_study(study_name="s", storage=storage,
+                                   sampler=optuna.samplers.GridSampler({p["n"]: grid_values(p) for p in fps}, seed=sc["seed"]))
+        fstudy.optimize(lambda t: float(len([_suggest_grid(t, p) for p in fps])),
+                        n_trials=None if sc["foreign_grid"] == "full" else 1)
     dead = False
     for seg in sc["segments"]:
         if dead:
@@ -496,6 +504,8 @@ def gen_grid(ctx, fam):
         for s_ in sc["segments"][1:]:
             s_["sampler"] = "fresh2"
     elif fam == "grid-main":
+        if rng.random() < 0.3:
+            sc["foreign_grid"] = rng.choice(["full", "one"])
         if n >= 3 and rng.random() < 0.3:
             for j in rng.sample(range(0, n - 1), rng.randint(1, min(2, n - 1))):
                 sc.setdefault("crash", {})[str(j)] = rng.choice(["crash", "ki"])
